@@ -85,11 +85,10 @@ class bound_scalar_array(base_array):
         self._values.insert(idx, value)
 
     def extend(self, values):
-        if not values:
-            return
+        values = [self._TYPE._check(value) for value in values]
         if self._max_len and len(self) + len(values) > self._max_len:
             raise ProphyError("exceeded array limit")
-        self._values.extend(map(self._TYPE._check, values))
+        self._values.extend(values)
 
     def remove(self, elem):
         self._values.remove(elem)
